@@ -90,6 +90,15 @@ func c03Scenarios(tier string) []*hist.Scenario {
 			})
 		}
 	}
+	// garbage made and referenced inside ONE change (one Update, two calls):
+	// set + delete of a key, set + set, add + remove of an element, a container
+	// created and filled; single kinds and pairs with a plain edit of the same type
+	for _, al := range [][]string{{"m.o1+del1"}, {"m.o1+o1"}, {"m.a+del"}, {"m.obj+in"}, {"m.o1+del1", "o.set1"}, {"m.o1+o1", "o.del1"}, {"m.a+del", "a.ins0"}, {"m.obj+in", "o.del1"}} {
+		out = append(out, &hist.Scenario{
+			Name: fmt.Sprintf("c03/multi/%s/N2K2Y3", strings.Join(al, "+")),
+			N:    2, Init: []string{"init.o", "init.a"}, Alphabet: al, K: 2, Y: 3, Cfg: hist.Config{Threshold: hist.Big, Interval: hist.Big},
+		})
+	}
 	// a replica that already applied a removal as a change and is then caught
 	// up by a snapshot (threshold 2: it falls three changes behind), while a
 	// third client still holds an unsent edit anchored inside the removed
